@@ -73,6 +73,17 @@ theorem C03_C08_reload_effects (c r : SrvAttrs) (hne : c ≠ r) (hadApps : Bool)
     reloadRestores (some c) (some r) hadApps = hadApps ∧ reloadAdjusts (some c) (some c) true = false := by
   simp [reloadAdjusts, reloadRestores, reloadDecision, hne]
 
+/-- **C06 (an allocation has the attributes of its own record).**  After `load_allocations` the rank, the
+    utilisation cap and the reservation of an allocation are those of the LAST record that names it; records naming
+    other allocations - its children included - do not touch it. -/
+theorem C06_alloc_own_record (pre post : List AllocRec) (r : AllocRec) (a : AllocAttrs)
+    (hpost : ∀ x ∈ post, x.name ≠ r.name) :
+    ((allocAfter (pre ++ r :: post) r.name a).rank = r.rank ∧
+     (allocAfter (pre ++ r :: post) r.name a).maxUtil = r.maxUtil ∧
+     (allocAfter (pre ++ r :: post) r.name a).reserved = r.reserved) ∧
+    ∀ other, (∀ x ∈ pre ++ r :: post, x.name ≠ other) → allocAfter (pre ++ r :: post) other a = a :=
+  ⟨allocAfter_last pre post r a hpost, fun other h => allocAfter_untouched _ other a h⟩
+
 /-! ### Non-vacuity -/
 example : reloadDecision (some ⟨(8, 4, 2), 0, 3, 7⟩) (some ⟨(8, 4, 2), 0, 1, 7⟩) = .replaced ∧
     reloadDecision (some ⟨(8, 4, 2), 0, 3, 7⟩) (some ⟨(8, 4, 2), 0, 3, 7⟩) = .same ∧
